@@ -1,3 +1,350 @@
-/- stub: model `ResizeMem` (to be written) -/
+/-
+Model of the dynamically growing data segment (C15, resize part):
+  * `iceoryx2-cal/src/resizable_shared_memory/dynamic.rs`
+      memory side `DynamicMemory::{allocate, deallocate(_bucket), grow, create_resized_segment,
+      handle_reallocation, perform_deallocation, number_of_active_segments}`
+      view side   `DynamicView::{register_and_translate_offset, unregister_offset,
+      release_old_unused_segments, number_of_active_segments}`
+  * `iceoryx2-cal/src/shm_allocator/pool_allocator.rs` `allocate` / `grow` / `deallocate_bucket` /
+      `resize_hint` / `initial_setup_hint` (the arithmetic is `Iox2.Alloc.{Pool, PoolSt, resizeHint}`)
+  * `iceoryx2-cal/src/shared_memory/common.rs` `Builder::create` (payload of size 0 → `SizeIsZero`,
+      bucket alignment above the page size → `InternalError`; the payload starts `base` bytes behind
+      a page boundary and the pool allocator aligns its first bucket up from there)
+as they are used by `iceoryx2/src/port/details/data_segment.rs`.
+
+One owner (`DynamicMemory`) and a list of views (`DynamicView`).  Chunks are named by labels
+(the harness' bookkeeping); the byte seen at the start of every bucket is tracked in `mem`
+(shared memory: the owner and all views see the same bytes).
+Sizes/addresses are `Nat` (no `usize` overflow); the u64 counters never wrap under the usage
+contract (the invariant of `Iox2/Proof/ResizeMem*.lean` shows they do not underflow).
+-/
+import Iox2.Model.Alloc
+
 namespace Iox2.ResizeMem
+open Iox2.Alloc
+
+structure Cfg where
+  strategy : Strategy
+  /-- address of the payload start modulo the page size (posix shared memory: header of 136 bytes) -/
+  base     : Nat := 136
+  /-- `SystemInfo::PageSize`: the largest alignment a segment supports -/
+  pageSize : Nat := 4096
+  /-- `MAX_NUMBER_OF_REALLOCATIONS` = `SegmentId::max_segment_id() + 1` (segment ids are `u8`) -/
+  maxSegs  : Nat := 256
+deriving Repr
+
+/-- one `ShmEntry` of the owner: a shared-memory segment with its pool allocator -/
+structure Seg where
+  id    : Nat
+  pool  : PoolSt   -- geometry + free-index stack
+  used  : Nat      -- `number_of_used_buckets` of the shm pool allocator
+  count : Nat      -- `chunk_count` of the `ShmEntry`
+deriving Repr
+
+namespace Seg
+def stride (g : Seg) : Nat := g.pool.p.stride
+def balign (g : Seg) : Nat := g.pool.p.bucketAlign
+def nBuckets (g : Seg) : Nat := g.pool.p.nBuckets
+
+/-- `Memory::allocate` → `InitializedPoolAllocator::allocate` (alignment check of the shm wrapper
+first) → bb `PoolAllocator::allocate`; the result is the offset relative to the first bucket -/
+def allocate (g : Seg) (size align : Nat) : Seg × Except AllocErr Nat :=
+  if align > g.pool.p.bucketAlign then (g, .error .alignmentFailure) else
+  match g.pool.allocate size align with
+  | (p', .ok a) => ({ g with pool := p', used := g.used + 1 }, .ok (a - g.pool.p.start))
+  | (_, .error e) => (g, .error e)
+
+/-- `deallocate_bucket(offset)` -/
+def deallocate (g : Seg) (off : Nat) : Seg :=
+  { g with pool := g.pool.deallocate (g.pool.p.start + off), used := g.used - 1 }
+end Seg
+
+/-- what the harness knows about a chunk it obtained -/
+structure Chunk where
+  label   : Nat
+  seg     : Nat
+  off     : Nat
+  size    : Nat
+  align   : Nat
+  live    : Bool
+  /-- came out of a `grow` that changed the segment id but not the offset (see `step`, `grow`) -/
+  tainted : Bool := false
+deriving Repr, DecidableEq
+
+/-- a mapped segment of a view with its registered-offset counter -/
+structure VSeg where
+  id    : Nat
+  count : Nat
+deriving Repr, DecidableEq
+
+structure Reg where
+  label : Nat
+  seg   : Nat
+  off   : Nat
+deriving Repr, DecidableEq
+
+structure View where
+  segs : List VSeg        -- `shared_memory_map`
+  cur  : Option Nat       -- `current_idx` (`INVALID_KEY` = none)
+  regs : List Reg         -- offsets registered and not yet unregistered (bookkeeping of the user)
+deriving Repr
+
+structure St where
+  cfg    : Cfg
+  segs   : List Seg       -- `shared_memory_map` of the owner
+  cur    : Nat            -- `current_idx`
+  chunks : List Chunk
+  views  : List View
+  /-- first byte of the bucket at (segment, offset) -/
+  mem    : Nat → Nat → Nat
+
+inductive CreateErr where
+  | sizeIsZero | internalError
+deriving Repr, DecidableEq
+
+/-- `create_segment` for a setup hint; `none`/error when the shared memory cannot be created -/
+def mkSeg (cfg : Cfg) (id : Nat) (h : Hint) : Except CreateErr Seg :=
+  let payload := h.bucketSize * h.nBuckets      -- `initial_setup_hint`: size * number of chunks
+  if payload = 0 then .error .sizeIsZero
+  else if h.bucketAlign > cfg.pageSize then .error .internalError
+  else .ok { id := id,
+             pool := PoolSt.init { ptr := cfg.base, size := payload, bucketSize := h.bucketSize,
+                                   bucketAlign := h.bucketAlign },
+             used := 0, count := 0 }
+
+def emptyView : View := { segs := [], cur := none, regs := [] }
+
+/-- `DynamicMemoryBuilder::create` plus `nviews` opened views -/
+def create (cfg : Cfg) (size align chunks nviews : Nat) : Except CreateErr St :=
+  match mkSeg cfg 0 { bucketSize := size, bucketAlign := align, nBuckets := chunks } with
+  | .error e => .error e
+  | .ok g => .ok { cfg := cfg, segs := [g], cur := 0, chunks := [],
+                   views := List.replicate nviews emptyView, mem := fun _ _ => 0 }
+
+def getSeg (segs : List Seg) (id : Nat) : Option Seg := segs.find? (·.id = id)
+def setSeg (segs : List Seg) (g : Seg) : List Seg := segs.map (fun x => if x.id = g.id then g else x)
+def dropSeg (segs : List Seg) (id : Nat) : List Seg := segs.filter (·.id ≠ id)
+
+def getChunk (cs : List Chunk) (l : Nat) : Option Chunk := cs.find? (·.label = l)
+/-- replace or add the record of label `c.label` -/
+def putChunk (cs : List Chunk) (c : Chunk) : List Chunk := c :: cs.filter (·.label ≠ c.label)
+
+/-- `create_resized_segment(shm = g, layout)`; `none` = `AllocationError::OutOfMemory`, nothing changed -/
+def createResized (s : St) (g : Seg) (size align : Nat) : Option St :=
+  let h := resizeHint g.stride g.balign g.nBuckets g.used size align s.cfg.strategy
+  if s.cur + 1 < s.cfg.maxSegs then
+    match mkSeg s.cfg (s.cur + 1) h with
+    | .error _ => none
+    | .ok g' =>
+      -- the current segment is released right away when it holds no chunk
+      let segs := if g.count = 0 then dropSeg s.segs s.cur else s.segs
+      some { s with segs := segs ++ [g'], cur := s.cur + 1 }
+  else none
+
+inductive Err where
+  | oom | size | align | shrink | internal | doesNotExist
+deriving Repr, DecidableEq
+
+/-- the `loop` of `DynamicMemory::allocate`; every iteration but the last creates a segment, so
+`maxSegs + 1` iterations always suffice -/
+def allocLoop : Nat → St → Nat → Nat → St × Except Err (Nat × Nat)
+  | 0, s, _, _ => (s, .error .internal)
+  | fuel + 1, s, size, align =>
+    match getSeg s.segs s.cur with
+    | none => (s, .error .internal)          -- fatal_panic "current segment unavailable"
+    | some g =>
+      match g.allocate size align with
+      | (g', .ok off) =>
+          ({ s with segs := setSeg s.segs { g' with count := g'.count + 1 } }, .ok (s.cur, off))
+      | (_, .error _) =>
+          -- OutOfMemory | SizeTooLarge | AlignmentFailure → handle_reallocation
+          if s.cfg.strategy = .static then (s, .error .oom)
+          else match createResized s g size align with
+            | none => (s, .error .oom)
+            | some s' => allocLoop fuel s' size align
+
+def allocate (s : St) (size align : Nat) : St × Except Err (Nat × Nat) :=
+  allocLoop (s.cfg.maxSegs + 1) s size align
+
+/-- `perform_deallocation(offset)` -/
+def deallocate (s : St) (seg off : Nat) : St :=
+  match getSeg s.segs seg with
+  | none => s                                 -- fatal_panic, unreachable for offsets handed out
+  | some g =>
+    if g.count = 1 ∧ seg ≠ s.cur then { s with segs := dropSeg s.segs seg }
+    else { s with segs := setSeg s.segs { g.deallocate off with count := g.count - 1 } }
+
+inductive Placement where
+  | front | back
+deriving Repr, DecidableEq
+
+/-! ### view side -/
+def bumpV (segs : List VSeg) (seg : Nat) : List VSeg :=
+  segs.map (fun x => if x.id = seg then { x with count := x.count + 1 } else x)
+def decV (segs : List VSeg) (seg : Nat) : List VSeg :=
+  segs.map (fun x => if x.id = seg then { x with count := x.count - 1 } else x)
+
+/-- `release_old_unused_segments(map, old_idx)` -/
+def releaseOld (segs : List VSeg) : Option Nat → List VSeg
+  | none => segs
+  | some o => match segs.find? (·.id = o) with
+    | some x => if x.count = 0 then segs.filter (·.id ≠ o) else segs
+    | none => segs
+
+/-- `register_and_translate_offset`; `ownerHas`: the segment still exists (can be opened) -/
+def View.register (vw : View) (ownerHas : Bool) (seg : Nat) : Option View :=
+  match vw.segs.find? (·.id = seg) with
+  | some _ => some { vw with segs := bumpV vw.segs seg }
+  | none =>
+    if ownerHas then
+      some { vw with segs := releaseOld (vw.segs ++ [{ id := seg, count := 1 }]) vw.cur, cur := some seg }
+    else none
+
+/-- `unregister_offset` -/
+def View.unregister (vw : View) (seg : Nat) : View :=
+  match vw.segs.find? (·.id = seg) with
+  | none => vw                                  -- only a warning
+  | some x =>
+    if x.count = 1 ∧ vw.cur ≠ some seg then { vw with segs := vw.segs.filter (·.id ≠ seg) }
+    else { vw with segs := decV vw.segs seg }
+
+/-! ### operations of a history -/
+inductive Op where
+  | alloc (l size align : Nat)
+  | write (l b : Nat)
+  | dealloc (l : Nat)
+  | grow (l size align : Nat) (pl : Placement)
+  | vreg (v l : Nat)
+  | vread (v l : Nat)
+  | vunreg (v l : Nat)
+  | segments
+  | vsegments (v : Nat)
+deriving Repr, DecidableEq
+
+inductive Out where
+  | ok
+  | okAt (seg off : Nat)
+  | okByte (b : Nat)
+  | num (n : Nat)
+  | err (e : Err)
+  | dup | none | tainted
+deriving Repr, DecidableEq
+
+def setMem (m : Nat → Nat → Nat) (seg off b : Nat) : Nat → Nat → Nat :=
+  fun s o => if s = seg ∧ o = off then b else m s o
+
+def liveChunk (s : St) (l : Nat) : Option Chunk :=
+  match getChunk s.chunks l with
+  | some c => if c.live then some c else none
+  | none => none
+
+/-- `DynamicMemory::grow(old_pointer, old_layout, new_layout, placement)` for the live chunk `c` -/
+def growChunk (s : St) (c : Chunk) (size align : Nat) (pl : Placement) : St × Out :=
+  match getSeg s.segs s.cur with
+  | none => (s, .err .internal)
+  | some g =>
+    -- `current_segment.shm.grow(old_pointer, …)`: the allocator of the CURRENT segment judges the request
+    if align > g.balign then (s, .err .align)
+    else if size < c.size then (s, .err .shrink)
+    else if size > g.stride then
+      -- AllocationGrowError::OutOfMemory → handle_reallocation, allocate in the new segment, copy, release
+      if s.cfg.strategy = .static then (s, .err .oom)
+      else match createResized s g size align with
+        | none => (s, .err .oom)
+        | some s1 =>
+          match getSeg s1.segs s1.cur with
+          | none => (s1, .err .internal)
+          | some g1 =>
+            match g1.allocate size align with
+            | (_, .error e) =>
+                (s1, .err (match e with
+                            | .outOfMemory => .oom | .alignmentFailure => .align | _ => .internal))
+            | (g1', .ok off) =>
+              let s2 := { s1 with segs := setSeg s1.segs { g1' with count := g1'.count + 1 } }
+              -- content: front → the old bytes start the new chunk; back → they end it
+              let copyFirst := c.size > 0 ∧ (pl = .front ∨ size = c.size)
+              let mem := if copyFirst then setMem s2.mem s1.cur off (s2.mem c.seg c.off) else s2.mem
+              let s3 := deallocate { s2 with mem := mem } c.seg c.off
+              let c' : Chunk := { label := c.label, seg := s1.cur, off := off, size := size, align := align,
+                                  live := true, tainted := off = c.off }
+              ({ s3 with chunks := putChunk s3.chunks c' }, .okAt s1.cur off)
+    else
+      -- in place: the offset is returned with the segment id of the CURRENT segment
+      let c' : Chunk := { c with seg := s.cur, size := size, align := align,
+                                 tainted := c.tainted || s.cur ≠ c.seg }
+      ({ s with chunks := putChunk s.chunks c' }, .okAt s.cur c.off)
+
+def step (s : St) : Op → St × Out
+  | .alloc l size align =>
+    match liveChunk s l with
+    | some _ => (s, .dup)
+    | none =>
+      match allocate s size align with
+      | (s', .ok (seg, off)) =>
+          ({ s' with chunks := putChunk s'.chunks
+               { label := l, seg := seg, off := off, size := size, align := align, live := true } },
+           .okAt seg off)
+      | (s', .error e) => (s', .err e)
+  | .write l b =>
+    match liveChunk s l with
+    | none => (s, .none)
+    | some c =>
+      if c.tainted then (s, .tainted)
+      else if c.size = 0 then (s, .ok)
+      else ({ s with mem := setMem s.mem c.seg c.off b }, .ok)
+  | .dealloc l =>
+    match liveChunk s l with
+    | none => (s, .none)
+    | some c =>
+      if c.tainted then (s, .tainted)
+      else
+        let s' := deallocate s c.seg c.off
+        ({ s' with chunks := putChunk s'.chunks { c with live := false } }, .ok)
+  | .grow l size align pl =>
+    match liveChunk s l with
+    | none => (s, .none)
+    | some c => if c.tainted then (s, .tainted) else growChunk s c size align pl
+  | .vreg v l =>
+    match s.views[v]? with
+    | none => (s, .none)
+    | some vw =>
+      if vw.regs.any (·.label = l) then (s, .dup)
+      else match getChunk s.chunks l with
+        | none => (s, .none)
+        | some c =>
+          match vw.register ((getSeg s.segs c.seg).isSome) c.seg with
+          | none => (s, .err .doesNotExist)
+          | some vw' =>
+            ({ s with views := s.views.set v { vw' with regs := { label := l, seg := c.seg, off := c.off } :: vw'.regs } }, .ok)
+  | .vread v l =>
+    match s.views[v]? with
+    | none => (s, .none)
+    | some vw =>
+      match vw.regs.find? (·.label = l) with
+      | none => (s, .none)
+      | some r => (s, .okByte (s.mem r.seg r.off))
+  | .vunreg v l =>
+    match s.views[v]? with
+    | none => (s, .none)
+    | some vw =>
+      match vw.regs.find? (·.label = l) with
+      | none => (s, .none)
+      | some r =>
+        let vw' := vw.unregister r.seg
+        ({ s with views := s.views.set v { vw' with regs := vw'.regs.filter (·.label ≠ l) } }, .ok)
+  | .segments => (s, .num s.segs.length)
+  | .vsegments v =>
+    match s.views[v]? with
+    | none => (s, .none)
+    | some vw => (s, .num vw.segs.length)
+
+def run (s : St) : List Op → St
+  | [] => s
+  | op :: ops => run (step s op).1 ops
+
+/-- the outputs of a history -/
+def outs (s : St) : List Op → List Out
+  | [] => []
+  | op :: ops => (step s op).2 :: outs (step s op).1 ops
+
 end Iox2.ResizeMem
